@@ -424,7 +424,15 @@ func (c *capture) GoString() string { return "capture{}" }
 func (c *capture) Parse(ctx *parseContext, parent reflect.Value) (out []reflect.Value, err error) {
 	defer ctx.printTrace(c)()
 	start := ctx.RawCursor()
+	outer := ctx.firstMatch
+	ctx.firstMatch = -1
 	v, err := c.node.Parse(ctx, parent)
+	if ctx.firstMatch >= 0 {
+		start = ctx.firstMatch // Elided tokens skipped before the first matched token are not part of the capture.
+	}
+	if outer >= 0 {
+		ctx.firstMatch = outer
+	}
 	if v != nil {
 		ctx.Defer(ctx.Range(start, ctx.RawCursor()), parent, c.field, v)
 	}
@@ -454,6 +462,7 @@ func (r *reference) Parse(ctx *parseContext, parent reflect.Value) (out []reflec
 	if token.Type != r.typ {
 		return nil, nil
 	}
+	ctx.matched(cursor)
 	ctx.FastForward(cursor)
 	return []reflect.Value{reflect.ValueOf(token.Value)}, nil
 }
@@ -481,6 +490,7 @@ func (l *literal) Parse(ctx *parseContext, parent reflect.Value) (out []reflect.
 	}
 	token, cursor := ctx.PeekAny(match)
 	if match(token) {
+		ctx.matched(cursor)
 		ctx.FastForward(cursor)
 		return []reflect.Value{reflect.ValueOf(token.Value)}, nil
 	}
@@ -513,6 +523,7 @@ func (n *negation) Parse(ctx *parseContext, parent reflect.Value) (out []reflect
 
 	// Just give the next token
 	next := ctx.Next()
+	ctx.matched(ctx.RawCursor() - 1)
 	return []reflect.Value{reflect.ValueOf(next.Value)}, nil
 }
 
